@@ -1238,7 +1238,7 @@ class Model:
         for k in [k for k, _, _ in st.order_keys]:
             ren[k] = k
         n.cols = {ren[c]: nm for c, nm in st.cols.items()}
-        n.types = {ren[c]: ty for c, ty in st.types.items()}
+        n.types = {ren[c]: ty for c, ty in st.types.items() if c in ren}
         n.visible = [ren[c] for c in st.visible]
         n.group = [ren[c] for c in st.group]
         n.rows = [{ren.get(c, c): v for c, v in r.items()} for r in st.rows]
